@@ -308,9 +308,22 @@ pub enum HttpErr {
     Malformed(String),
 }
 
+pub static CONNECT_FAILURES: std::sync::atomic::AtomicU64 = std::sync::atomic::AtomicU64::new(0);
+
+fn note_connect(ok: bool) {
+    use std::sync::atomic::Ordering;
+    if ok {
+        CONNECT_FAILURES.store(0, Ordering::Relaxed);
+    } else if CONNECT_FAILURES.fetch_add(1, Ordering::Relaxed) > 40 {
+        machinery_failure("more than 40 consecutive TCP connects to a tracker failed: tracker gone or not accepting");
+    }
+}
+
 impl HttpConn {
     pub fn connect(addr: SocketAddr) -> Option<HttpConn> {
-        let s = TcpStream::connect_timeout(&addr, Duration::from_secs(3)).ok()?;
+        let r = TcpStream::connect_timeout(&addr, Duration::from_secs(3));
+        note_connect(r.is_ok());
+        let s = r.ok()?;
         s.set_nodelay(true).ok();
         s.set_read_timeout(Some(Duration::from_secs(5))).ok();
         Some(HttpConn { stream: s, buf: Vec::new() })
@@ -439,7 +452,11 @@ impl WsConn {
 
     pub fn connect_from(local_ip: Option<IpAddr>, addr: SocketAddr) -> Option<WsConn> {
         let s: TcpStream = match local_ip {
-            None => TcpStream::connect_timeout(&addr, Duration::from_secs(3)).ok()?,
+            None => {
+                let r = TcpStream::connect_timeout(&addr, Duration::from_secs(3));
+                note_connect(r.is_ok());
+                r.ok()?
+            }
             Some(ip) => {
                 let domain = if addr.is_ipv4() { socket2::Domain::IPV4 } else { socket2::Domain::IPV6 };
                 let s = socket2::Socket::new(domain, socket2::Type::STREAM, Some(socket2::Protocol::TCP)).ok()?;
